@@ -10,10 +10,14 @@ CONSTANTS
   EqualNames = TRUE
   SanitiseDots = TRUE
   Reserve = TRUE
+  AllowAbort = FALSE
+  ForeignRelease = FALSE
+  OrderedArrival = FALSE
 INVARIANT TypeOK
 INVARIANT Inside
 INVARIANT RegularName
 INVARIANT FreshWhenChosen
 INVARIANT DistinctActivePaths
 INVARIANT NothingOutside
+INVARIANT LockHeld
 CHECK_DEADLOCK FALSE
